@@ -3357,35 +3357,29 @@ impl Spx {
     // - if remaining `i` is equal to the byte count `x`,
     //     set `e = sp.end.column` and finish.
     // - if remaining `i` is less than the byte count `x`,
-    //     assert `sp.end.column - sp.start.column + 1 == x || i == 0` (1),
-    //     set `e = sp.start.column + i - 1` and finish.
+    //     set `e = sp.start.column + i - 1` (1) and finish.
     //
     // (1) If `x` doesn't equal the range covered between the start and end column,
-    //     there's no way to determine sourcepos within the range. This is a bug if
-    //     it happens; it suggests we've matched an email autolink with some smart
-    //     punctuation in it, or worse.
+    //     there's no way to determine sourcepos within the range. This happens
+    //     when the text differs in length from its source spelling (an unresolved
+    //     footnote reference put back as text whose label held an escape, an
+    //     entity or a line break). The split is then kept within the range, so
+    //     that the result is a best effort rather than a panic.
     //
-    //     The one exception is if `i == 0`. Given nothing to consume, we can
-    //     happily restore what we popped, returning `sp.start.column - 1` for the
-    //     end column of the original node.
+    //     If `i == 0` there is nothing to consume: we restore what we popped,
+    //     returning `sp.start.column - 1` for the end column of the original node.
     pub(crate) fn consume(&mut self, mut rem: usize) -> usize {
         while let Some((sp, x)) = self.0.pop_front() {
             match rem.cmp(&x) {
                 Ordering::Greater => rem -= x,
                 Ordering::Equal => return sp.end.column,
                 Ordering::Less => {
-                    assert!((sp.end.column - sp.start.column + 1 == x) || rem == 0);
+                    let split = (sp.start.column + rem).min(sp.end.column + 1);
                     self.0.push_front((
-                        (
-                            sp.start.line,
-                            sp.start.column + rem,
-                            sp.end.line,
-                            sp.end.column,
-                        )
-                            .into(),
+                        (sp.start.line, split, sp.end.line, sp.end.column).into(),
                         x - rem,
                     ));
-                    return sp.start.column + rem - 1;
+                    return split - 1;
                 }
             }
         }
